@@ -33,6 +33,18 @@ pub fn generate(g: &mut Gen, thorough: bool) {
         g.push(format!("S_C14\ttm\t{}\t{}\t{}", escape(&u1), escape(&b2), data_of(&upts)), "oracle-utm-btmerc-ellps", true);
         g.push(op_line("default", &[], &[], &u2, "apply", "F", &data_of(&upts)), "model-butm-ellps", true);
     }
+    // false eastings that carry a zone number in front (Gauss-Krueger 3 degree zones, state plane feet): the strip is
+    // measured from the central meridian, not from the origin of the grid
+    for (zone, x_0, e) in [(3, "3500000", "bessel"), (32, "32500000", "GRS80"), (5, "5500000", "krass"), (33, "-33500000", "intl"), (9, "1e8", "GRS80")] {
+        let lon_0 = if zone == 32 || zone == 33 { 6.0 * zone as f64 - 183.0 } else { 3.0 * zone as f64 };
+        let d = proj::ProjDef { centre: (lon_0, 0.0), extent: (2.9, 80.0), ..proj::random(&mut g.rng, "btmerc") };
+        let pts = proj::points(&mut g.rng, &d, 6);
+        let tail = format!("lon_0={lon_0} k_0=0.9996 x_0={x_0} y_0=-5000000 ellps={e}");
+        g.push(format!("S_C14\ttm\t{}\t{}\t{}", escape(&format!("tmerc {tail}")), escape(&format!("btmerc {tail}")), data_of(&pts)), "oracle-tmerc-btmerc-zone-prefixed-eastings", true);
+        for dir in ["F", "I"] {
+            g.push(op_line("default", &[], &[], &format!("tmerc {tail}"), "both", dir, &data_of(&pts)), "model-tmerc-zone-prefixed-eastings", true);
+        }
+    }
     // operators against the ellipsoid's own methods
     for _ in 0..rounds {
         let ellps = *g.rng.pick(&proj::ELLPS);
@@ -47,7 +59,7 @@ pub fn generate(g: &mut Gen, thorough: bool) {
             g.push(format!("S_C14\tcurv\t{ellps}\t{kind}\t{}", data_of(&deg)), "oracle-curvature-ellipsoid", true);
             g.push(op_line("default", &[], &[], &format!("curvature {kind} ellps={ellps}"), "apply", "F", &data_of(&deg)), "model-curvature", true);
         }
-        for kind in ["cassinis", "jeffreys", "grs67", "grs80", "welmec"] {
+        for kind in ["cassinis", "jeffreys", "grs67", "grs80", "welmec", "default"] {
             g.push(format!("S_C14\tgrav\t{ellps}\t{kind}\t{}", data_of(&deg)), "oracle-gravity-ellipsoid", true);
         }
         // (azimuths in either convention: ]-180, 180] and [0, 360[, and a turn beyond)
